@@ -108,7 +108,8 @@ def cases(tier, rng):
         mask = [int(rng.random() < 0.3) for _ in range(nr * nc)] if hm else []
         xres, yres = rng.choice([(3, -4), (4, 3), (-3, -4)])
         yield {"k": 1411, "args": [ds, nets.topo_order(ds), [hm], mask, [nc], [xres], [yres], [5]],
-               "call": {"nr": nr, "nc": nc, "flw": flw}, "group": "raster-stream_distance-m"}
+               "call": {"nr": nr, "nc": nc, "flw": flw, "pre": rng.choice([None, "masked_m", "distnc", "cell", "masked_cell"]),
+                        "premask": [int(rng.random() < 0.4) for _ in range(nr * nc)]}, "group": "raster-stream_distance-m"}
 
 
 def _oq(vals, nodata, isfloat=True):
@@ -191,6 +192,12 @@ def impl(case):
         tr = Affine(float(a[5][0]), 0.0, 10.0, 0.0, float(a[6][0]), 20.0)
         flw = pyflwdir.from_array(np.array(c["flw"], dtype=np.uint8).reshape(c["nr"], c["nc"]), ftype="d8", transform=tr)
         mask = np.array(a[3], dtype=bool).reshape(c["nr"], c["nc"]) if a[2][0] else None
+        # an earlier query on the same (memoising) object must not change the answer (round-2 seed)
+        pre = c.get("pre")
+        if pre:
+            pm = np.array(c["premask"], dtype=bool).reshape(c["nr"], c["nc"])
+            call_impl({"masked_m": lambda: flw.stream_distance(mask=pm, unit="m"), "distnc": lambda: flw.distnc,
+                       "cell": lambda: flw.stream_distance(), "masked_cell": lambda: flw.stream_distance(mask=pm)}[pre])
         return ints(*call_impl(flw.stream_distance, mask=mask, unit="m"))
     raise ValueError(k)
 
